@@ -37,6 +37,19 @@ func (w *methodWorld) builder(b string) *mocker.Builder {
 	return w.b[b]
 }
 
+// lu: an unexported struct type of THIS package, addressed by name without Pkg() (the builder's current package)
+type lu struct{ Tag int }
+
+//go:noinline
+func (p *lu) Call(a int) int {
+	if a < -10000 {
+		fmt.Println("never")
+	}
+	return 1100 + a + p.Tag
+}
+
+var instL = []*lu{{Tag: 1}, {Tag: 2}, {Tag: 3}}
+
 const mzPkg = "github.com/tencent/goom/zzverif/corpus/mz"
 
 // instances per type: three with distinct field values
@@ -136,6 +149,18 @@ func (w *methodWorld) Do(st Step) string {
 				} else {
 					h.As(func(p *mz.UL, a int) int { return 0 }).Return(base + 7)
 				}
+			case "l":
+				h := bl.ExportStruct("*lu").Method("Call")
+				if apply {
+					h.Apply(func(p *lu, a int) int {
+						if p == nil || p.Tag < 1 || p.Tag > 3 || p != instL[p.Tag-1] {
+							w.bad("lu.Call: receiver %+v", p)
+						}
+						return base + a
+					})
+				} else {
+					h.As(func(p *lu, a int) int { return 0 }).Return(base + 7)
+				}
 			case "E":
 				if apply {
 					bl.Struct(&mz.E{}).Method("Own").Apply(func(p *mz.E, a int) int {
@@ -208,6 +233,8 @@ func (w *methodWorld) call(t string, i int) int {
 		return instV[i].Get(7)
 	case "u.Call":
 		return mz.CallU(instU[i], 7)
+	case "l.Call":
+		return instL[i].Call(7)
 	case "E.Own":
 		return instE[i].Own(7)
 	case "E.Call": // promoted from the embedded A
@@ -228,7 +255,7 @@ func (w *methodWorld) call(t string, i int) int {
 	panic("target " + t)
 }
 
-var origBase = map[string]int{"A.Call": 100, "A.Call2": 200, "A.call": 300, "V.Call": 400, "V.Get": 500, "u.Call": 600, "E.Own": 700,
+var origBase = map[string]int{"A.Call": 100, "A.Call2": 200, "A.call": 300, "V.Call": 400, "V.Get": 500, "u.Call": 600, "l.Call": 1100, "E.Own": 700,
 	"E.Call": 100, "M.P": 900, "M.Q": 1000, "Gint.M": 800, "Gstr.M": 800, "GpA.M": 800, "GpV.M": 800}
 
 func (w *methodWorld) Observe(st Step) map[string]string {
